@@ -416,7 +416,7 @@ func c06Trivia(c *core.Check) {
 }
 
 // triviaRule is shared by C06 (parsing) and C08 (a comment is one more spelling of the same declaration).
-func triviaRule(c *core.Check, r *core.Rule) {
+func triviaRule(c *core.Check, r *core.Rule, only ...string) {
 	p := c.Prog
 	scope := map[string]map[string]bool{
 		"css/parser": {"parser.go": true, "tokenizer.go": true, "colors.go": true, "nth.go": true},
@@ -469,6 +469,15 @@ func triviaRule(c *core.Check, r *core.Rule) {
 				}
 				if _, ex := exempt[fd.Name.Name]; ex {
 					continue
+				}
+				if len(only) > 0 {
+					wanted := false
+					for _, o := range only {
+						wanted = wanted || o == fd.Name.Name
+					}
+					if !wanted {
+						continue
+					}
 				}
 				ast.Inspect(fd.Body, func(x ast.Node) bool {
 					var clauses []*ast.CaseClause
@@ -531,8 +540,12 @@ func triviaRule(c *core.Check, r *core.Rule) {
 			}
 		}
 	}
-	if n < 6 {
-		r.Unknown("white-space tests found", "-", fmt.Sprintf("%d switches / conditions found, 6 expected", n))
+	want := 6
+	if len(only) > 0 {
+		want = 1
+	}
+	if n < want {
+		r.Unknown("white-space tests found", "-", fmt.Sprintf("%d switches / conditions found, %d expected", n, want))
 	}
 }
 
